@@ -342,8 +342,14 @@ def check(argv):
         for f in fmts:
             jobs.append((f, o, seed, tier))
     t0 = time.time()
-    with mp.get_context("fork").Pool(16) as pool:
-        res = pool.map(job, jobs, chunksize=2)
+    from pyvc.pool import robust_map
+
+    res = []
+    for r, j in zip(robust_map(job, jobs), jobs):
+        if isinstance(r, dict) and r.get("crashed"):
+            res.append(dict(fmt=j[0], evals=1, nontrivial=0, known=[], failures=[dict(what=f"constructing/reading tensors crashed the process: {r['reason']}", dims=(), coords=[], values=[])]))
+        else:
+            res.append(r)
     evals = sum(r["evals"] for r in res)
     nontrivial = sum(r["nontrivial"] for r in res)
     shown = 0
